@@ -194,7 +194,8 @@ theorem lookupKey_map_append (k : String) (f : String → String) (ks : List Str
       simp [h, h']
 
 theorem keyForOSMKey_spec (k : String) :
-    keyForOSMKey k = if k ∈ hashKeys then "#" ++ k else if k ∈ atKeys then "@" ++ k else k := by
+    keyForOSMKey k = if k ∈ hashKeys then "#" ++ k else if k ∈ atKeys then "@" ++ k
+      else if k = "point" ∨ k = "path" then "osm:" ++ k else k := by
   unfold keyForOSMKey
   rw [table_eq, lookupKey_map_append]
   by_cases h1 : k ∈ hashKeys
@@ -202,7 +203,23 @@ theorem keyForOSMKey_spec (k : String) :
   · have := lookupKey_map_append k (fun k => "@" ++ k) atKeys []
     simp only [List.append_nil] at this
     rw [if_neg h1, if_neg h1, this]
-    by_cases h2 : k ∈ atKeys <;> simp [h2, lookupKey]
+    by_cases h2 : k ∈ atKeys
+    · simp [h2]
+    · simp only [h2, if_false, lookupKey]
+
+/-- no OSM key lands on one of the two geometry keys -/
+theorem keyForOSMKey_not_reserved (k : String) : keyForOSMKey k ≠ "point" ∧ keyForOSMKey k ≠ "path" := by
+  rw [keyForOSMKey_spec]
+  have hh : ∀ a ∈ hashKeys, "#" ++ a ≠ "point" ∧ "#" ++ a ≠ "path" := by decide
+  have ha : ∀ a ∈ atKeys, "@" ++ a ≠ "point" ∧ "@" ++ a ≠ "path" := by decide
+  by_cases h1 : k ∈ hashKeys
+  · simpa [h1] using hh k h1
+  · by_cases h2 : k ∈ atKeys
+    · simpa [h1, h2] using ha k h2
+    · by_cases h3 : k = "point" ∨ k = "path"
+      · rcases h3 with rfl | rfl <;> decide
+      · simp only [h1, h2, h3, if_false]
+        exact ⟨fun h => h3 (Or.inl h), fun h => h3 (Or.inr h)⟩
 
 /-! ### `modifyOrAdd` and the geometry tags -/
 
